@@ -92,6 +92,9 @@ class MonFS(LocalFileSystem):
         # listing-type calls (ls, find) answer with the directory as of before the latest
         # mutation below it (newest entry not yet visible)
         self.stale_from, self.stale_left = stale_from, stale_count
+        # which recently created entry a stale listing lacks: "newest" = the one created by the
+        # latest mutation, "last-name" = the recently created entry that sorts last
+        self.stale_mode = "newest"
         # listing_order="creation": ls / find answer in the order the entries were created
         # (legal: the order of a listing is unspecified; object stores and tmpfs behave like this)
         self.listing_order = None
@@ -141,6 +144,9 @@ class MonFS(LocalFileSystem):
         except OSError:
             return None
         newest = [x for x in now if x not in prev]
+        if self.stale_mode == "last-name":
+            recent = [x for x in now if os.path.join(d, x) in self.birth]
+            newest = sorted(recent)[-1:] if recent else newest
         if not newest:
             return None
         hide = {os.path.join(d, x) for x in newest}
